@@ -5,7 +5,8 @@
    correspondence run evaluates on the traces recorded from the real engine); revm enters only
    through the values written, which are universally quantified. *)
 From Brc.Model Require Import Base History Table BlockTable Store.
-From Brc.Proofs Require Import HistoryP KvP TableP BlockTableP StoreP.
+From Brc.Model Require Import Engine EngineStore.
+From Brc.Proofs Require Import HistoryP KvP TableP BlockTableP StoreP EngineP EngineStoreP.
 From BrcGen Require Import Consts.
 
 Theorem C01_window_pinned : W = 10.
@@ -66,6 +67,24 @@ Theorem C01_in_window_not_refused :
                   engine_reorg_guard W 0 s n <> RvRefused.
 Proof. exact (engine_guard_accepts W). Qed.
 Print Assumptions C01_in_window_not_refused.
+
+(* The hypothesis [wf_run] of the theorems above is not only evaluated on the recorded traces:
+   the engine's block protocol (Model/Engine.v) guarantees it.  For every history of engine
+   calls from the initial state, whatever the oracles answer (signature layer, revm) and
+   whatever keys and values the accepted calls write, as long as each accepted call issues store
+   operations of the shape the engine code issues for it ([emits]: writes stamped with the
+   block under construction; finalise = block row, raw block row, pool clean-up, hash rows,
+   height bookkeeping; commit / clear / reorg as single operations) and each rejected call
+   issues none, the concatenated store trace is well-formed. *)
+Theorem C01_engine_protocol_implies_wf :
+  forall (h : list (call * list sop)),
+    allowed W MAX_FUTURE_TRANSACTION_NONCES MAX_FUTURE_TRANSACTION_BLOCKS INDEXER_ADDRESS g_init wf_init h ->
+    exists st', wf_run W wf_init (concat (map snd h)) = Some st'.
+Proof.
+  exact (fun h => engine_history_wf W MAX_FUTURE_TRANSACTION_NONCES MAX_FUTURE_TRANSACTION_BLOCKS INDEXER_ADDRESS
+                    h g_init wf_init Rel_init).
+Qed.
+Print Assumptions C01_engine_protocol_implies_wf.
 
 (* Non-vacuity: a 14-block trace (a key created, overwritten with the same value, zeroed,
    deleted, idle past the window, touched again), committed half-way, then rolled back 10
